@@ -507,7 +507,10 @@ def c03_island(rng, ns, depth=0):
     return out
 def gen_c03(rng, n, prefix="w"):
     for i in range(n // 2 + 1):
-        if rng.randrange(5) < 3: data = c03_soup(rng)
+        if rng.randrange(5) < 3:
+            data = c03_soup(rng)
+            if rng.randrange(12) == 0:      # the input stops inside a text-mode-switching start tag in select / after frameset
+                data += rng.choice([b"<select>", b"<select><template>", b"<frameset>", b"<select><option>x"]) + rng.choice([b"<style ", b"<textarea", b"<title a=b", b"<xmp x='", b"<script ", b"<iframe\n"])
         else:
             ns = rng.choice(["svg", "math"])
             data = rng.choice([b"", b"<!DOCTYPE html>", b"<p>before"]) + b"<" + ns.encode() + rng.choice([b"", b" viewBox='0 0 1 1'"]) + b">" + c03_island(rng, "svg" if ns == "svg" else "mathml") + b"</" + ns.encode() + b">" + rng.choice([b"", b"<p>after</p>", b"<textarea><b></textarea>"])
